@@ -1,11 +1,16 @@
 import OZ.DrvUtil
-import OZ.Model.Rwa
+import OZ.Model.RwaMon
 /-
 Driver for C04 (RWA gates). `op`: runs the model OZ.Rwa on an op line and prints the model's
 observation in the harness' format. `mon`: the monitor — evaluates the property's conclusion
 directly on the IMPLEMENTATION's observation lines (it keeps the previous observation as the
 observed pre-state and a ghost registry of compliance modules built from the accepted
-add_module / remove_module calls; it never calls the model's transition functions):
+add_module / remove_module calls; it never calls the model's transition functions). The monitor
+itself lives in OZ/Model/RwaMon.lean (`OZ.Rwa.Mon.checkCore`, on parsed values, one named `def` per
+check) and is proved sound in OZ/Props/C04Mon.lean; this file only PARSES the op line (`parseLine`)
+and the observation line (`parseObs`) and calls it. Not covered by the soundness theorem: the
+string-level parsers of this file and the alarm `site=rwa.parse` for an unparsable observation.
+What the monitor evaluates:
 
   * every accepted transfer / transfer_from had all gates open in the observed pre-state
     (not paused, neither party frozen, amount <= balance - frozen, both identities ok, and EVERY
@@ -26,26 +31,9 @@ add_module / remove_module calls; it never calls the model's transition function
     replay of the emitted mint / burn / transfer events reproduces every balance.
 -/
 namespace OZ.Drv.C04
-open OZ.Drv OZ.Rwa OZ.Host
+open OZ.Drv OZ.Rwa OZ.Rwa.Mon OZ.Host
 
-def N : Nat := 5
-def K : Nat := 3
 def MAX_TTL : Nat := 200000
-
-/-- scripted verdict of one mock compliance module -/
-structure Comp where
-  tx : Bool
-  create : Bool
-  cap : Int
-  blocked : List Nat
-  deriving BEq
-
-def Comp.default : Comp := ⟨true, true, I128_MAX, []⟩
-
-def Comp.canTransfer (c : Comp) (f t : Nat) (a : Int) : Bool :=
-  c.tx && !c.blocked.contains f && !c.blocked.contains t && decide (a ≤ c.cap)
-def Comp.canCreate (c : Comp) (t : Nat) (a : Int) : Bool :=
-  c.create && !c.blocked.contains t && decide (a ≤ c.cap)
 
 structure M where
   cfg : Cfg
@@ -60,22 +48,6 @@ def initM (label : String) : M :=
   { cfg := ⟨mt, MAX_TTL⟩, s := init st ad, comps := List.replicate K Comp.default }
 
 def b01 (b : Bool) : String := if b then "1" else "0"
-
-def hookOf : Nat → Hook
-  | 0 => .transferred
-  | 1 => .created
-  | 2 => .destroyed
-  | 3 => .canTransfer
-  | _ => .canCreate
-
-def hookIx : Hook → Nat
-  | .transferred => 0
-  | .created => 1
-  | .destroyed => 2
-  | .canTransfer => 3
-  | .canCreate => 4
-
-def setAt {α} (l : List α) (i : Nat) (v : α) : List α := l.mapIdx (fun j x => if j = i then v else x)
 
 /-- (authorizing addresses, model operation, new module scripts) -/
 def parseOp (m : M) (ws : List String) : Option (List Nat × Op × List Comp) :=
@@ -143,11 +115,6 @@ def showEv : Ev → String
   | .moduleAdded h m => s!"madd:{hookIx h}:{m}"
   | .moduleRemoved h m => s!"mrem:{hookIx h}:{m}"
 
-def showNote : Note → String
-  | .transferred f t a => s!"transferred:{f}:{t}:{a}"
-  | .created t a => s!"created:{t}:{a}"
-  | .destroyed f a => s!"destroyed:{f}:{a}"
-
 def showQuery : Query → String
   | .canTransfer f t a => s!"can_transfer:{f}:{t}:{a}"
   | .canCreate t a => s!"can_create:{t}:{a}"
@@ -155,13 +122,6 @@ def showQuery : Query → String
 def showIdCall : IdCall → String
   | .verify a => s!"verify:{a}"
   | .target a => s!"target:{a}"
-
-def showModCall : ModCall → String
-  | .canTransfer f t a => s!"can_transfer:{f}:{t}:{a}"
-  | .canCreate t a => s!"can_create:{t}:{a}"
-  | .onTransfer f t a => s!"on_transfer:{f}:{t}:{a}"
-  | .onCreated t a => s!"on_created:{t}:{a}"
-  | .onDestroyed f a => s!"on_destroyed:{f}:{a}"
 
 def semi (l : List String) : String := if l.isEmpty then "-" else ";".intercalate l
 def dots (l : List Nat) : String := if l.isEmpty then "-" else ".".intercalate (l.map toString)
@@ -181,10 +141,6 @@ def showState (s : State) (cs : List Comp) : String :=
   let rct := idx.map (fun i => match s.recTarget i with | some t => toString t | none => "-")
   let mods := (List.range 5).map (fun h => dots (s.mods (hookOf h)))
   s!"sup={s.base.supply} bal={",".intercalate bals} allow={semi al} paused={b01 s.paused} af={",".intercalate af} ft={",".intercalate ft} id={",".intercalate id} rec={",".intercalate rct} bound={b01 s.bound} mods={"/".intercalate mods} mcfg={"/".intercalate (cs.map showComp)}"
-
-def isEnv : Op → Bool
-  | .advance _ | .envIdOk _ _ | .envRecTarget _ _ | .envModule _ _ _ => true
-  | _ => false
 
 /-- the calls received by the modules, grouped by module (the harness reads one log per module) -/
 def showModCalls (l : List (Nat × ModCall)) : List String :=
@@ -211,26 +167,32 @@ def stepLine (m : M) (line : String) : M × String :=
     | .error _ =>
       (m, s!"err ret=- {showState m.s m.comps} now={m.s.base.now} ev=- idv=- cq=- cn=- ml=- dem=-")
 
-/-! ### the monitor (implementation side) -/
+/-! ### the monitor (implementation side): parsing only -/
 
-structure Obs where
-  ok : Bool
-  ret : String
-  sup : Int
-  bal : List Int
-  allow : String
-  paused : Bool
-  af : List Bool
-  ft : List Int
-  id : List Bool
-  rct : List (Option Nat)
-  bound : Bool
-  mods : List (List Nat)
-  mcfg : List Comp
-  evs : List (List String)
-  cn : List String
-  ml : List String
-  dem : List Nat
+def kindOfName : String → Kind
+  | "transfer" => .transfer
+  | "transfer_from" => .transferFrom
+  | "approve" => .approve
+  | "mint" => .mint
+  | "burn" => .burn
+  | "forced_transfer" => .forcedTransfer
+  | "recover" => .recover
+  | "freeze" => .freeze
+  | "unfreeze" => .unfreeze
+  | "set_frozen" => .setFrozen
+  | "pause" => .pause
+  | "unpause" => .unpause
+  | "add_module" => .addModule
+  | "remove_module" => .removeModule
+  | "bind" => .bind
+  | "unbind" => .unbind
+  | s => .other s
+
+/-- the fields of the op line the monitor reads (never fails: absent fields read 0 / []) -/
+def parseLine (opl : String) : Line :=
+  let ws := words opl
+  { kind := kindOfName ((ws.drop 1).head?.getD ""), a := natList ((kv? ws "a").getD "-"),
+    amt := (kvInt? ws "amt").getD 0, lu := (kvNat? ws "lu").getD 0 }
 
 def boolList (s : String) : List Bool := (s.splitOn ",").map (· = "1")
 def dotList (s : String) : List Nat := if s = "-" then [] else (s.splitOn ".").filterMap String.toNat?
@@ -241,6 +203,46 @@ def parseComp (s : String) : Option Comp :=
     let cap ← if cap = "max" then some I128_MAX else cap.toInt?
     pure ⟨tx = "1", cr = "1", cap, dotList bl⟩
   | _ => none
+
+/-- a mint / burn / transfer / approve event of the token; every other event (and anything
+unreadable) is skipped by the replay. A transfer event that carries a `to_muxed_id` (fifth field):
+`to` is still the underlying account. -/
+def parseEv (ev : List String) : Option Fungible.Event :=
+  match ev with
+  | ["mint", t, a] => do pure (.mint (← t.toNat?) (← a.toInt?))
+  | ["burn", f, a] => do pure (.burn (← f.toNat?) (← a.toInt?))
+  | ["transfer", f, t, a] => do pure (.transfer (← f.toNat?) (← t.toNat?) (← a.toInt?))
+  | ["transfer", f, t, a, _] => do pure (.transfer (← f.toNat?) (← t.toNat?) (← a.toInt?))
+  | ["approve", o, sp, a, lu] => do pure (.approve (← o.toNat?) (← sp.toNat?) (← a.toInt?) (← lu.toNat?))
+  | _ => none
+
+def parseNote (s : String) : Option Note :=
+  match s.splitOn ":" with
+  | ["transferred", f, t, a] => do pure (.transferred (← f.toNat?) (← t.toNat?) (← a.toInt?))
+  | ["created", t, a] => do pure (.created (← t.toNat?) (← a.toInt?))
+  | ["destroyed", f, a] => do pure (.destroyed (← f.toNat?) (← a.toInt?))
+  | _ => none
+
+def parseMl (s : String) : Option (Nat × ModCall) :=
+  match s.splitOn ":" with
+  | [m, "can_transfer", f, t, a] => do pure (← m.toNat?, .canTransfer (← f.toNat?) (← t.toNat?) (← a.toInt?))
+  | [m, "can_create", t, a] => do pure (← m.toNat?, .canCreate (← t.toNat?) (← a.toInt?))
+  | [m, "on_transfer", f, t, a] => do pure (← m.toNat?, .onTransfer (← f.toNat?) (← t.toNat?) (← a.toInt?))
+  | [m, "on_created", t, a] => do pure (← m.toNat?, .onCreated (← t.toNat?) (← a.toInt?))
+  | [m, "on_destroyed", f, a] => do pure (← m.toNat?, .onDestroyed (← f.toNat?) (← a.toInt?))
+  | _ => none
+
+def parseAllowEntry (s : String) : Option (Nat × Nat × Int) :=
+  match s.splitOn ":" with
+  | [o, sp, a] => do pure (← o.toNat?, ← sp.toNat?, ← a.toInt?)
+  | _ => none
+
+/-- `-` = empty, else `;`-separated entries, each of which must parse -/
+def semiList {α} (f : String → Option α) (s : String) : Option (List α) :=
+  if s = "-" then some [] else (s.splitOn ";").mapM f
+
+def parseRet (s : String) : Option Bool :=
+  if s = "true" then some true else if s = "false" then some false else none
 
 def parseObs (line : String) : Option Obs :=
   match words line with
@@ -255,227 +257,24 @@ def parseObs (line : String) : Option Obs :=
     let bound ← kvNat? rest "bound"
     let mods := (((kv? rest "mods").getD "").splitOn "/").map dotList
     let mcfg ← (((kv? rest "mcfg").getD "").splitOn "/").mapM parseComp
+    let allow ← semiList parseAllowEntry ((kv? rest "allow").getD "-")
     let evS := (kv? rest "ev").getD "-"
-    let evs := if evS = "-" then [] else (evS.splitOn ";").map (·.splitOn ":")
-    let cnS := (kv? rest "cn").getD "-"
-    let cn := if cnS = "-" then [] else cnS.splitOn ";"
-    let mlS := (kv? rest "ml").getD "-"
-    let ml := if mlS = "-" then [] else mlS.splitOn ";"
+    let evs := if evS = "-" then [] else (evS.splitOn ";").filterMap (fun e => parseEv (e.splitOn ":"))
+    let cn ← semiList parseNote ((kv? rest "cn").getD "-")
+    let ml ← semiList parseMl ((kv? rest "ml").getD "-")
     let dem := natList ((kv? rest "dem").getD "-")
     if bal.length ≠ N ∨ ft.length ≠ N ∨ af.length ≠ N ∨ id.length ≠ N ∨ rct.length ≠ N ∨ mods.length ≠ 5
         ∨ mcfg.length ≠ K then none
-    else pure { ok := tag = "ok", ret := (kv? rest "ret").getD "-", sup, bal, allow := (kv? rest "allow").getD "-",
+    else pure { ok := tag = "ok", ret := parseRet ((kv? rest "ret").getD "-"), sup, bal, allow,
                 paused := paused = 1, af, ft, id, rct, bound := bound = 1, mods, mcfg, evs, cn, ml, dem }
   | _ => none
 
-structure Mon where
-  admin : Nat
-  prev : Obs
-  replay : List Int            -- balances reconstructed from the emitted events
-  reg : List (List Nat)        -- ghost registry: per hook the modules added and not removed, in order
-
-def zeroObs : Obs :=
-  { ok := true, ret := "-", sup := 0, bal := List.replicate N 0, allow := "-", paused := false,
-    af := List.replicate N false, ft := List.replicate N 0, id := List.replicate N true,
-    rct := List.replicate N none, bound := true, mods := List.replicate 5 [],
-    mcfg := List.replicate K Comp.default, evs := [], cn := [], ml := [], dem := [] }
-
-def initMon (label : String) : Mon :=
-  { admin := (kvNat? (words label) "admin").getD 0, prev := zeroObs, replay := List.replicate N 0,
-    reg := List.replicate 5 [] }
-
-def gi (l : List Int) (i : Nat) : Int := l.getD i 0
-def gb (l : List Bool) (i : Nat) : Bool := l.getD i false
-
-def addAt (l : List Int) (i : Nat) (d : Int) : List Int := l.mapIdx (fun j x => if j = i then x + d else x)
-
-def replayEv (b : List Int) (ev : List String) : List Int :=
-  match ev with
-  | ["mint", t, a] => match t.toNat?, a.toInt? with | some t, some a => addAt b t a | _, _ => b
-  | ["burn", f, a] => match f.toNat?, a.toInt? with | some f, some a => addAt b f (-a) | _, _ => b
-  | ["transfer", f, t, a] =>
-    match f.toNat?, t.toNat?, a.toInt? with
-    | some f, some t, some a => addAt (addAt b f (-a)) t a
-    | _, _, _ => b
-  -- a transfer event that carries a `to_muxed_id`: `to` is still the underlying account
-  | ["transfer", f, t, a, _] =>
-    match f.toNat?, t.toNat?, a.toInt? with
-    | some f, some t, some a => addAt (addAt b f (-a)) t a
-    | _, _, _ => b
-  | _ => b
-
-/-- the registered CanTransfer modules (ghost registry) that reject, by their scripted verdict in
-the observed pre-state -/
-def vetoes (reg : List (List Nat)) (p : Obs) (f t : Nat) (amt : Int) : List Nat :=
-  (reg.getD 3 []).filter (fun m => !((p.mcfg.getD m Comp.default).canTransfer f t amt))
-
-def createVetoes (reg : List (List Nat)) (p : Obs) (t : Nat) (amt : Int) : List Nat :=
-  (reg.getD 4 []).filter (fun m => !((p.mcfg.getD m Comp.default).canCreate t amt))
-
-/-- names of the gates that were closed in the observed pre-state `p` for a holder move -/
-def closedGates (reg : List (List Nat)) (p : Obs) (f t : Nat) (amt : Int) : List String :=
-  (if p.paused then ["paused"] else []) ++
-  (if gb p.af f then ["from_frozen"] else []) ++
-  (if gb p.af t then ["to_frozen"] else []) ++
-  (if amt > gi p.bal f - gi p.ft f then ["free_balance"] else []) ++
-  (if gb p.id f then [] else ["from_identity"]) ++
-  (if gb p.id t then [] else ["to_identity"]) ++
-  (vetoes reg p f t amt).map (fun m => s!"compliance_module_{m}")
-
-def first (l : List (Option String)) : Option String := l.findSome? id
-
-def orFail (c : Bool) (msg : String) : Option String := if c then none else some msg
-
-/-- frozen' = min(frozen, balance - amount) for `a`, untouched for everybody else -/
-def minimalUnfreeze (p o : Obs) (a : Nat) (amt : Int) : Bool :=
-  let want := if gi p.ft a ≤ gi p.bal a - amt then gi p.ft a else gi p.bal a - amt
-  o.ft == setAt p.ft a want
-
-/-- one call `c` to each module of `ms`, as the per-module logs show it (grouped by module) -/
-def fanOut (ms : List Nat) (c : String) : List String :=
-  (List.range K).filterMap (fun m => if ms.contains m then some s!"{m}:{c}" else none)
+def initMon (label : String) : Mon := monInit ((kvNat? (words label) "admin").getD 0)
 
 def check (m : Mon) (opl obs : String) : Mon × Option String :=
   match parseObs obs with
   | none => (m, some s!"site=rwa.parse unparsable observation {obs}")
-  | some o =>
-    let p := m.prev
-    let ws := words opl
-    let kind := (ws.drop 1).head?.getD ""
-    let a := natList ((kv? ws "a").getD "-")
-    let amt := (kvInt? ws "amt").getD 0
-    let lu := (kvNat? ws "lu").getD 0
-    let a0 := a.getD 0 0
-    let a1 := a.getD 1 0
-    let a2 := a.getD 2 0
-    let replay' := o.evs.foldl replayEv m.replay
-    let reg := m.reg
-    -- ghost registry after this op
-    let reg' : List (List Nat) :=
-      if o.ok ∧ kind = "add_module" then setAt reg lu (reg.getD lu [] ++ [a0])
-      else if o.ok ∧ kind = "remove_module" then setAt reg lu ((reg.getD lu []).erase a0)
-      else reg
-    let m' : Mon := { m with prev := o, replay := replay', reg := reg' }
-    let supervisory := ["mint", "burn", "forced_transfer", "recover", "freeze", "unfreeze", "set_frozen", "pause",
-      "unpause", "add_module", "remove_module", "bind", "unbind"]
-    let operator := a.getLast?.getD 0
-    -- what the compliance contract must have been told
-    let owed : List String :=
-      if ¬ o.ok then []
-      else match kind with
-        | "transfer" => [s!"transferred:{a0}:{a1}:{amt}"]
-        | "transfer_from" => [s!"transferred:{a1}:{a2}:{amt}"]
-        | "forced_transfer" => [s!"transferred:{a0}:{a1}:{amt}"]
-        | "mint" => [s!"created:{a0}:{amt}"]
-        | "burn" => [s!"destroyed:{a0}:{amt}"]
-        | "recover" => if o.ret = "true" then [s!"transferred:{a0}:{a1}:{gi p.bal a0}"] else []
-        | _ => []
-    -- what the modules registered for the notification hooks must have received (once each)
-    let owedHooks : List String :=
-      if ¬ o.ok then []
-      else match kind with
-        | "transfer" => fanOut (reg.getD 0 []) s!"on_transfer:{a0}:{a1}:{amt}"
-        | "transfer_from" => fanOut (reg.getD 0 []) s!"on_transfer:{a1}:{a2}:{amt}"
-        | "forced_transfer" => fanOut (reg.getD 0 []) s!"on_transfer:{a0}:{a1}:{amt}"
-        | "mint" => fanOut (reg.getD 1 []) s!"on_created:{a0}:{amt}"
-        | "burn" => fanOut (reg.getD 2 []) s!"on_destroyed:{a0}:{amt}"
-        | "recover" => if o.ret = "true" then fanOut (reg.getD 0 []) s!"on_transfer:{a0}:{a1}:{gi p.bal a0}" else []
-        | _ => []
-    -- the verdict modules an ACCEPTED holder move / mint must have consulted (all of them, once)
-    let owedVerdicts : List String :=
-      if ¬ o.ok then []
-      else match kind with
-        | "transfer" => fanOut (reg.getD 3 []) s!"can_transfer:{a0}:{a1}:{amt}"
-        | "transfer_from" => fanOut (reg.getD 3 []) s!"can_transfer:{a1}:{a2}:{amt}"
-        | "mint" => fanOut (reg.getD 4 []) s!"can_create:{a0}:{amt}"
-        | _ => []
-    let isHookCall (e : String) : Bool := ((e.splitOn ":").getD 1 "").startsWith "on_"
-    let gotHooks := o.ml.filter isHookCall
-    let gotVerdicts := o.ml.filter (fun e => !isHookCall e)
-    -- expected balances after an accepted op, from the observed pre-state
-    let move (f t : Nat) (x : Int) : List Int := addAt (addAt p.bal f (-x)) t x
-    let expBal : List Int :=
-      match kind with
-      | "transfer" => move a0 a1 amt
-      | "transfer_from" => move a1 a2 amt
-      | "forced_transfer" => move a0 a1 amt
-      | "mint" => addAt p.bal a0 amt
-      | "burn" => addAt p.bal a0 (-amt)
-      | "recover" => if o.ret = "true" then move a0 a1 (gi p.bal a0) else p.bal
-      | _ => p.bal
-    let fail : Option String := first [
-      -- the gates, on the observed pre-state
-      (if o.ok ∧ kind = "transfer" then
-        let g := closedGates reg p a0 a1 amt
-        orFail g.isEmpty s!"site=rwa.transfer.gate accepted although closed: {",".intercalate g}"
-       else none),
-      (if o.ok ∧ kind = "transfer_from" then
-        let g := closedGates reg p a1 a2 amt
-        orFail g.isEmpty s!"site=rwa.transfer_from.gate accepted although closed: {",".intercalate g}"
-       else none),
-      (if o.ok ∧ kind = "mint" then
-        orFail (gb p.id a0 && (createVetoes reg p a0 amt).isEmpty)
-          s!"site=rwa.mint.gate accepted although identity_ok={gb p.id a0} rejecting CanCreate modules={createVetoes reg p a0 amt}"
-       else none),
-      -- 0 <= frozen <= balance, always
-      orFail ((List.range N).all (fun i => decide (0 ≤ gi o.ft i ∧ gi o.ft i ≤ gi o.bal i)))
-        s!"site=rwa.frozen_le_balance frozen={o.ft} balances={o.bal}",
-      -- supervisory paths unfreeze the minimum
-      (if o.ok ∧ kind = "forced_transfer" then
-        orFail (minimalUnfreeze p o a0 amt) s!"site=rwa.forced_transfer.unfreeze frozen {p.ft} -> {o.ft} for amount {amt} of balance {gi p.bal a0}"
-       else none),
-      (if o.ok ∧ kind = "burn" then
-        orFail (minimalUnfreeze p o a0 amt) s!"site=rwa.burn.unfreeze frozen {p.ft} -> {o.ft} for amount {amt} of balance {gi p.bal a0}"
-       else none),
-      -- recovery: only to the registered, verified target; everything moves, nothing else does
-      (if o.ok ∧ kind = "recover" then
-        first [
-          orFail (p.rct.getD a0 none == some a1 && gb p.id a1)
-            s!"site=rwa.recover.target accepted although target={p.rct.getD a0 none} identity_ok={gb p.id a1}",
-          orFail (o.ret == (if gi p.bal a0 = 0 then "false" else "true")) s!"site=rwa.recover.ret returned {o.ret} for balance {gi p.bal a0}",
-          (if o.ret = "true" then
-            let expFt := if a0 = a1 then p.ft else addAt (setAt p.ft a0 0) a1 (gi p.ft a0)
-            let expAf := setAt p.af a1 (gb p.af a1 || gb p.af a0)
-            orFail (o.ft == expFt && o.af == expAf)
-              s!"site=rwa.recover.effects frozen {p.ft} -> {o.ft} (expected {expFt}), address-frozen {p.af} -> {o.af} (expected {expAf})"
-           else orFail (o.ft == p.ft && o.af == p.af) "site=rwa.recover.effects nothing to recover but freeze state changed")]
-       else none),
-      -- exact balance movement of every accepted op (and none for the others)
-      (if o.ok then orFail (o.bal == expBal) s!"site=rwa.{kind}.move balances {p.bal} -> {o.bal}, expected {expBal}" else none),
-      -- freeze bookkeeping is touched only by the operations that may
-      (if o.ok ∧ ¬ ["forced_transfer", "burn", "recover", "freeze", "unfreeze"].contains kind then
-        orFail (o.ft == p.ft) s!"site=rwa.frame.frozen {kind} changed frozen amounts {p.ft} -> {o.ft}" else none),
-      (if o.ok ∧ ¬ ["recover", "set_frozen"].contains kind then
-        orFail (o.af == p.af) s!"site=rwa.frame.address_frozen {kind} changed address freezes" else none),
-      (if o.ok ∧ kind = "freeze" then orFail (amt ≥ 0 ∧ o.ft == addAt p.ft a0 amt) "site=rwa.freeze.effect frozen amount not +amount" else none),
-      (if o.ok ∧ kind = "unfreeze" then orFail (amt ≥ 0 ∧ o.ft == addAt p.ft a0 (-amt)) "site=rwa.unfreeze.effect frozen amount not -amount" else none),
-      -- exactly-once notification with the exact parties and amount
-      orFail (o.cn == owed) s!"site=rwa.{kind}.notify compliance was told {o.cn}, owed {owed}",
-      -- only a token bound to the compliance contract can notify it
-      (if o.ok ∧ ¬ owed.isEmpty then orFail p.bound s!"site=rwa.{kind}.bound accepted although the token is not bound to the compliance contract" else none),
-      -- ... which reaches exactly the modules registered for that hook, once each
-      orFail (gotHooks == owedHooks) s!"site=rwa.{kind}.fanout modules received {gotHooks}, owed {owedHooks}",
-      -- an accepted holder move / mint consulted every registered verdict module (once)
-      (if o.ok then orFail (gotVerdicts == owedVerdicts)
-        s!"site=rwa.{kind}.consulted verdict modules consulted {gotVerdicts}, registered {owedVerdicts}" else none),
-      -- the registry getter agrees with the accepted add / remove history
-      orFail (o.mods == reg') s!"site=rwa.compliance.registry registry reads {o.mods}, ghost registry {reg'}",
-      (if o.ok ∧ kind = "add_module" then orFail (!(reg.getD lu []).contains a0) "site=rwa.compliance.add a registered module was added again" else none),
-      (if o.ok ∧ kind = "remove_module" then orFail ((reg.getD lu []).contains a0) "site=rwa.compliance.remove an unregistered module was removed" else none),
-      -- operator policy of the harness contracts
-      (if o.ok ∧ supervisory.contains kind then
-        orFail (operator = m.admin ∧ o.dem.contains operator) s!"site=rwa.{kind}.operator accepted for operator {operator} (admin {m.admin}, demanded {o.dem})"
-       else none),
-      -- C01 for this flavour
-      orFail (o.bal.sum = o.sup ∧ o.bal.all (· ≥ 0)) s!"site=rwa.sum total_supply={o.sup} balances={o.bal}",
-      (if ¬ o.ok then
-        orFail (o.sup == p.sup && o.bal == p.bal && o.allow == p.allow && o.ft == p.ft && o.af == p.af && o.paused == p.paused
-                && o.bound == p.bound && o.mods == p.mods && o.ml.isEmpty)
-          "site=rwa.rollback a failed call changed supply, a balance, an allowance, a frozen amount, a freeze flag, the pause flag, the binding, the module registry or reached a module"
-       else none),
-      orFail (replay' == o.bal) s!"site=rwa.replay event replay gives {replay'} but balances are {o.bal}"
-    ]
-    (m', fail)
+  | some o => checkCore m (parseLine opl) o
 
 def machine : Machine where
   σ := M
